@@ -152,8 +152,8 @@ func names(list ...[]CVal) map[string]bool {
 }
 
 // props draws counter properties.  listItem: the element is a list item (then counter-increment,
-// when declared, mentions list-item — except in report-only cases — and counter-set never names
-// list-item: set-vs-increment order is finding F13).
+// when declared, mentions list-item — except in report-only cases).  A name may be both incremented
+// and set on one element (order reset, increment, set: finding F13, repaired).
 func (g *treeGen) props(listItem bool, freq int) CProps {
 	r := g.r
 	var p CProps
@@ -176,16 +176,7 @@ func (g *treeGen) props(listItem bool, freq int) CProps {
 		p.IncrNone = true
 	}
 	if r.Intn(100) < 12*freq/10 {
-		// F13: a name both set and incremented on one element is applied in the wrong order
-		inc := names(p.Incr)
-		if listItem {
-			inc["list-item"] = true
-		}
-		for _, c := range g.cvals(pool, -5, 30, true) {
-			if !inc[c.Name] {
-				p.Set = append(p.Set, c)
-			}
-		}
+		p.Set = g.cvals(pool, -5, 30, true)
 	}
 	return p
 }
@@ -210,6 +201,9 @@ func (g *treeGen) node(tag string, depth int) *Node {
 	n.Props = g.props(li, 10)
 	if li {
 		n.ListType = treeListTypes[r.Intn(len(treeListTypes))]
+	}
+	if tag == "li" && r.Intn(8) == 0 {
+		n.Value = ip(int64(r.Intn(30) - 5)) // <li value> (finding F14, repaired): a hint, used when hints are on
 	}
 	if tag == "ol" && !li && n.Props.Reset == nil && !n.Props.ResetNone && n.Props.Incr == nil && n.Props.Set == nil && r.Intn(4) == 0 {
 		n.Start = ip(int64(r.Intn(25) - 4))
